@@ -180,7 +180,9 @@ pub struct OpRec {
 #[derive(Clone, Debug)]
 pub enum ConnRec {
     Open { invoke: u64, ret: u64, result: Result<(), String>, server_properties: Option<FieldTable> },
-    OpenChannel { requested: Option<u16>, invoke: u64, ret: u64, result: Result<u16, String>, for_thread: usize, slot: usize },
+    OpenChannel { requested: Option<u16>, invoke: u64, ret: u64, result: Result<u16, String>, for_thread: usize, slot: usize, keep: bool },
+    /// the owner closed a channel it had kept (client-side close: a Channel.Close frame is written)
+    KeptClosed { id: u16, invoke: u64, result: Result<(), String> },
     ListenBlocked { invoke: u64, ret: u64, result: Result<(), String> },
     ReadBlocked { notes: Vec<Option<String>>, disconnected: bool },
     Close { invoke: u64, ret: u64, invoke_ns: u64, ret_ns: u64, result: Result<(), String>, by_drop: bool },
